@@ -784,6 +784,9 @@ func (a *DerArtifact) ApplyDer(t *Node, op, arg string, rng *rand.Rand) error {
 				c = []byte{0}
 			}
 			c = append([]byte{7}, c[1:]...)
+		case "zeros":
+			// same length, every bit zero (a signature / key that is the integer 0)
+			c = make([]byte, len(c))
 		default:
 			c = []byte{}
 		}
